@@ -145,10 +145,10 @@ FINDINGS = [
     dict(
         id="KF-C04-inlined-result-register-lifetime",
         property="C04",
-        also=["C01", "C02", "C06", "C13"],
+        also=["C01", "C02", "C06", "C13", "C07"],
         trigger="value_function_with_single_call_site_inside_function",
         what="a value function with one call site inside another function is inlined there; its result register lives in the main scope with a lifetime taken from source lines (definition .. call site), so a main-scope value that is live while the enclosing function runs (e.g. a loop counter) is given the same register and overwritten",
-        signatures=dict(C04=[dict(monitor="shadow-tags", event="clobber")], C01=[dict(ANYTRACE, **NOEV)], C06=[dict(ANYTRACE, **NOEV)], C02=[dict(DIFF, machine_event_a=None, machine_event_b=None)], C13=[dict(monitor="module-differential", machine_event_a=None, machine_event_b=None), dict(ANYTRACE, **NOEV)]),
+        signatures=dict(C04=[dict(monitor="shadow-tags", event="clobber")], C01=[dict(ANYTRACE, **NOEV)], C06=[dict(ANYTRACE, **NOEV)], C02=[dict(DIFF, machine_event_a=None, machine_event_b=None)], C13=[dict(monitor="module-differential", machine_event_a=None, machine_event_b=None), dict(ANYTRACE, **NOEV)], C07=[dict(monitor="termination", event="chip-keeps-running-after-source-ended", inline=True)]),  # C07: the overwritten value is a loop counter of terminating top-level code
         witness=dict(C01=prog(S_INL_RESULT, [V_DEF])),
     ),
     dict(
